@@ -527,7 +527,7 @@ def run(ctx):
         revs = [{'kind': 'rev-big', 'seed': i, 'size': size, 'lead': lead, 'tail': tail,
                  'kinds': ['binary-file', 'text-file', 'bytesio', 'text-file-raw-newlines'], 'blocksizes': [4096, 65536, -10, 100003]}
                 for i, (size, lead, tail) in enumerate(
-                    [(300000, '\n', None), (262144, '\n', ''), (600000, '\r\n', None), (262150, '', None), (1200000, '\n\n', '\n'),
+                    [(300000, '\n', None), (1200000, '\n\n', '\n'), (600000, '\r\n', None), (262150, '', None), (262144, '\n', ''),
                      (262100, '\nfirst', None), (2100000, '\n', None), (400000, 'x', '')])]
         mine = [b for i, b in enumerate(revs) if i % ctx.nshards == ctx.shard]
         for b in (mine if ctx.thorough else mine[:1]):
